@@ -7,7 +7,7 @@ import time
 
 from scratch import Undecided
 
-KANI_FLAGS = ["-Z", "unstable-options", "--ignore-global-asm", "-Z", "stubbing"]
+KANI_FLAGS = ["-Z", "unstable-options", "--ignore-global-asm", "-Z", "stubbing", "--no-assertion-reach-checks"]
 OBL_RE = re.compile(r'OBL:"?\s*,?\s*"?([A-Za-z0-9_.\-]+)')
 OBLU_RE = re.compile(r'OBLU:"?\s*,?\s*"?([A-Za-z0-9_.\-]+)')
 
@@ -23,14 +23,14 @@ def env():
     return e
 
 
-def run(scratch, harnesses, jobs, timeout_s, log_path, extra=None):
+def run(scratch, harnesses, jobs, timeout_s, log_path, extra=None, solver="minisat"):
     """Run the given Harness objects. Returns (json_dict or None, stdout_text, wall_s)."""
     out_json = os.path.join(scratch, "kani-out.%d.json" % int(time.time() * 1000))
     cmd = base_cmd() + ["--exact"]
     for h in harnesses:
         cmd += ["--harness", h.full_name]
     cmd += ["-j", str(jobs), "--output-format=terse", "--harness-timeout", "%ds" % timeout_s,
-            "--export-json", out_json]
+            "--export-json", out_json, "--solver", solver]
     if extra:
         cmd += extra
     t0 = time.time()
